@@ -56,7 +56,7 @@ def gen_packages(run):
             force = [None] + list(g.BASE_RESULTS)         # the four shapes of the property text
         take = (len(pool) + npk - 1) // npk
         force = (force or []) + pool[k * take:(k + 1) * take]  # every accepted form occurs somewhere
-        pkgs.append(g.gen_iface_pkg(rng, "p%d" % k, nif, nme, force=force[:nif * nme], ctx_first=4 if k == 0 else 0))
+        pkgs.append(g.gen_iface_pkg(rng, "p%d" % k, nif, nme, force=force[:nif * nme], ctx_plan=g.CTX_PLAN if k == 0 else ()))
     rej = list(g.REJECTED)
     if not run.thorough():
         # the full list takes ~0.3 s per signature: quick keeps one of each fatal kind plus a sample
@@ -77,6 +77,23 @@ WITNESS = {
     "K_rest_multi_name_result": ("wm", [(["a", "b"], g.RESP[1]), (["err"], g.ERR[1])], "not enough return values"),
     "K_rest_result_names_collide": ("wn", [(["resp_"], g.RESP[1]), (["err"], g.ERR[1])], "no new variables on left side"),
 }
+
+# client option sets (the driver's Case fields): EnableLogging, a pass-through Use middleware, a non-empty
+# DefaultHeaders, Use(RetryMiddleware(n, 1ms)) and their combinations
+OPTSETS = [
+    {},
+    {"logging": True},
+    {"wrap": True},
+    {"logging": True, "wrap": True},
+    {"headers": True},
+    {"retry": 0},
+    {"retry": 2},
+    {"headers": True, "retry": 1},
+    {"headers": True, "logging": True},
+    {"headers": True, "logging": True, "wrap": True, "retry": 1},
+]
+CTX_FAULTS = ["cancelled", "inflight", "deadline", "timeout"]      # failures that travel through the request context
+DET_METHODS = 10                                                   # rest10gen.CTX_PLAN: the methods of the deterministic classes
 
 REDIRECT_FINDING = "K_rest_redirect_response_dropped"
 REDIRECT_STATUSES = [301, 302, 303, 307, 308]
@@ -195,7 +212,8 @@ def redirect_loop_cases(methods, start=0):
         for s in REDIRECT_STATUSES:
             cases.append({"i": start + len(cases), "iface": "%s.%s" % (p.name, i.name), "method": m.name, "mode": "fault",
                           "status": s, "body": "", "body_fault": False, "fault": "redirect_loop", "via": 0,
-                          "logging": s in (302, 307), "wrap": s in (303, 307),
+                          "logging": s in (302, 307), "wrap": s in (303, 307), "headers": s == 308,
+                          "retry": 1 if s == 301 else None, "opt_timeout": 0,
                           "_m": m, "_p": p, "_label": "redirect_loop"})
     return cases
 
@@ -210,8 +228,18 @@ def gen_cases(run, pkgs, with_redirect_loops=False):
         c = {"i": len(cases), "iface": "%s.%s" % (p.name, i.name), "method": m.name, "mode": kw.pop("mode"),
              "status": kw.pop("status", 0), "body": kw.pop("body", ""), "body_fault": kw.pop("body_fault", False),
              "fault": kw.pop("fault", ""), "via": kw.pop("via", 0), "logging": kw.pop("logging", False),
-             "wrap": kw.pop("wrap", False), "_m": m, "_p": p, "_label": kw.pop("label", "")}
+             "wrap": kw.pop("wrap", False), "headers": kw.pop("headers", False), "retry": kw.pop("retry", None),
+             "opt_timeout": kw.pop("opt_timeout", 0), "_m": m, "_p": p, "_label": kw.pop("label", "")}
+        assert not kw, kw
         cases.append(c)
+
+    def fault_ok(m, f, o):
+        """does fault f make sense for method m through a client built with option set o"""
+        if f in ("cancelled", "inflight", "deadline", "nilctx", "bodyhang") and not m.ctx:
+            return False
+        # a transport that answers (nil, nil) breaks the RoundTripper contract: LoggingMiddleware and
+        # RetryMiddleware dereference the response
+        return not (f == "nilnil" and (o.get("logging") or o.get("retry") is not None))
 
     statuses = g.quick_statuses(rng)
     inrange = g.BOUNDARIES[1:]
@@ -259,7 +287,7 @@ def gen_cases(run, pkgs, with_redirect_loops=False):
             faults += ["cancelled", "nilctx"]
         if m.body_param:
             faults.append("marshal")
-        timed = base or run.thorough() or rng.random() < 0.2
+        timed = k < DET_METHODS or run.thorough() or rng.random() < 0.2
         if timed:
             faults += TIMED_FAULTS if m.ctx else ["timeout"]
         # client variants: plain, shoot.EnableLogging(true), a pass-through shoot.Use middleware, both --
@@ -284,6 +312,32 @@ def gen_cases(run, pkgs, with_redirect_loops=False):
         if base or (run.thorough() and rng.random() < 0.3):
             for s in (200, 500):
                 add(p, i, m, mode="fault", fault="bodytimeout", status=s, body=bodies[2][1], label="bodytimeout")
+        # ---- client options x failures that travel through the request context, and middleware chains in
+        # front of answers with bodies.  Deterministic for the first methods of the first package (context
+        # first / last / middle / absent, body and non-body verbs), sampled for the others.
+        det = k < DET_METHODS
+        answers = [(s_, lb) for s_ in (200, 400, 404, 499, 500, 503, 599) for lb in (bodies[1], [x for x in bodies if x[0] == "text"][0])]
+        if det or run.thorough():
+            for o in OPTSETS[4:]:
+                for f in CTX_FAULTS + ["sentinel", "refused", "bodyhang"]:
+                    if fault_ok(m, f, o):
+                        add(p, i, m, mode="fault", fault=f, status=200, body=bodies[1][1], label=f, **o)
+            for n_, o in enumerate(OPTSETS[1:]):
+                for a_, (s_, (label, b)) in enumerate(answers):
+                    # a retried request with a body cannot be sent twice over a real connection (RetryMiddleware
+                    # hands the consumed body on again: reported, not this property's subject): fabricated answers
+                    real = (n_ + a_ + k) % 2 == 0 and not (m.body_param and o.get("retry") is not None and s_ >= 500)
+                    add(p, i, m, mode="srv" if real else "fab", status=s_, body=b, label="chain_" + label, **o)
+        else:
+            for o in rng.sample(OPTSETS[4:], 2):
+                f = rng.choice([f for f in CTX_FAULTS + ["sentinel", "refused"] if fault_ok(m, f, o)])
+                add(p, i, m, mode="fault", fault=f, status=200, body=bodies[1][1], label=f, **o)
+                s_, (label, b) = rng.choice(answers)
+                add(p, i, m, mode="fab", status=s_, body=b, label="chain_" + label, **o)
+        if k in (0, 4, 5, 9):
+            # shoot.Timeout as an option (the constructor turns 1 into one second: open finding K_rest_timeout)
+            for o in ({}, {"headers": True}):
+                add(p, i, m, mode="fault", fault="timeout", status=200, body="{}", label="timeout", opt_timeout=1, **o)
     if with_redirect_loops:
         # only once the finding K_rest_redirect_response_dropped no longer reproduces
         cases += redirect_loop_cases(methods, start=len(cases))
@@ -506,14 +560,18 @@ def main(run):
     confirmed = [(idx, v, obs[idx]) for idx, v in mism if not timed(cases[idx])]
     timed_mism = [(idx, v) for idx, v in mism if timed(cases[idx])]
     discarded = 0
-    for idx, v in timed_mism[:40]:
-        c2 = dict(cases[idx])
-        o2 = run_driver(drv, [c2])[0]
-        m2, _ = coq_shards(run, "c10re_%d" % idx, [c2], [o2])
-        if not m2:
-            discarded += 1
-            continue
-        confirmed.append((idx, m2[0][1], o2))
+    if timed_mism:
+        # one more driver run and one more Coq evaluation for (at most 40 of) them together
+        again = [dict(cases[idx]) for idx, _ in timed_mism[:40]]
+        for n_, c2 in enumerate(again):
+            c2["i"] = n_
+        obs2 = run_driver(drv, again)
+        m2 = dict(coq_shards(run, "c10re", again, obs2)[0])
+        for n_, (idx, v) in enumerate(timed_mism[:40]):
+            if n_ in m2:
+                confirmed.append((idx, m2[n_], obs2[n_]))
+            else:
+                discarded += 1
     for idx, v in timed_mism[40:]:
         confirmed.append((idx, v, obs[idx]))      # too many to re-run: reported as they are
     for idx, v, o in confirmed[:5]:
@@ -554,6 +612,15 @@ def main(run):
         decs[c["_label"] + "->" + d] = decs.get(c["_label"] + "->" + d, 0) + 1
         if o["err"] is not None or (o.get("dec") and o["dec"]["class"] != "ok") or c["body"] == "":
             nontrivial.add((c["iface"], c["method"], c["status"], c["body"], c["body_fault"]))
+    ctxopt, ctxpos = {}, {}
+    for c in cases:
+        if c["mode"] == "fault" and c["fault"] in CTX_FAULTS + ["bodyhang", "nilctx"]:
+            o_ = "+".join(k_ for k_ in ("logging", "wrap", "headers") if c[k_]) + ("+retry%d" % c["retry"] if c["retry"] is not None else "") \
+                + ("+shoot.Timeout" if c["opt_timeout"] else "")
+            key = "%s/%s" % (c["fault"], o_.strip("+") or "plain")
+            ctxopt[key] = ctxopt.get(key, 0) + 1
+            key = "%s/%s" % (c["_m"].ctx or "absent", c["fault"])
+            ctxpos[key] = ctxpos.get(key, 0) + 1
     sample_idx = [0, len(cases) // 3, len(cases) // 2, len(cases) - 1] if cases else []
     swept = sorted({c["status"] for c in cases if c["mode"] in ("srv", "fab")})
     cov = {
@@ -567,7 +634,10 @@ def main(run):
                  "text, quoted/UTF-8 text) on the boundary statuses; %d statuses outside 200..599 incl. negatives and "
                  "int64 extremes (fabricated) and 600/750/999 (real server); read errors after part of the body; "
                  "failures (each also through clients built with shoot.EnableLogging(true) and/or a pass-through shoot.Use "
-                 "middleware): transport sentinel, response+error, nil/nil, connection refused, context cancelled "
+                 "middleware; for the first 10 methods -- context parameter first / last / middle / absent -- the failures "
+                 "that travel through the request context and the statuses 200/400/404/499/500/503/599 with a body also "
+                 "through every option set of OPTSETS: non-empty shoot.DefaultHeaders, shoot.Use(RetryMiddleware(0|1|2)), "
+                 "combinations; shoot.Timeout as an option): transport sentinel, response+error, nil/nil, connection refused, context cancelled "
                  "before/in flight, context deadline, http.Client.Timeout, stalled body (cancel, timeout), url.JoinPath, "
                  "json.Marshal, nil context.  %d signatures the generator must refuse, one shoot run each.  "
                  "non-trivial = distinct cases with a non-nil error, an empty body, a body that is not plainly decodable, "
@@ -585,7 +655,15 @@ def main(run):
         "body_class_to_measured_decode_class": decs,
         "faults": faults,
         "client_variants": {"logging": sum(1 for c in cases if c["logging"]), "wrapped": sum(1 for c in cases if c["wrap"]),
-                            "fault_cases_with_logging_or_wrap": sum(1 for c in cases if c["mode"] == "fault" and (c["logging"] or c["wrap"]))},
+                            "default_headers": sum(1 for c in cases if c["headers"]),
+                            "retry_middleware": sum(1 for c in cases if c["retry"] is not None),
+                            "shoot_timeout_option": sum(1 for c in cases if c["opt_timeout"]),
+                            "fault_cases_with_logging_or_wrap": sum(1 for c in cases if c["mode"] == "fault" and (c["logging"] or c["wrap"])),
+                            "context_faults_by_option_set": ctxopt,
+                            "answers_4xx_5xx_with_body_behind_a_chain": sum(
+                                1 for c in cases if c["mode"] in ("srv", "fab") and c["status"] >= 400 and c["body"]
+                                and (c["logging"] or c["wrap"] or c["headers"] or c["retry"] is not None))},
+        "context_position_by_context_fault": ctxpos,
         "refused_signatures": {label: (fatal_of(res[p.name]) or "generated") for label, p in rpkgs},
         "findings_measured": outcome,
         "mismatches": {"raw": len(mism), "timed_rerun": min(len(timed_mism), 40), "timed_not_reproduced": discarded,
